@@ -55,4 +55,14 @@ theorem close_unpolled_leak_counterexample :
     | zero => rfl
     | succ n => rfl
 
+/-- F8d: io_uring driver on a kernel without the opcode (`IORING_OP_SOCKET` < 5.19): the blocking
+fallback adopts the created descriptor twice; the caller receives a descriptor that has already been
+closed (and will close the number again). -/
+theorem iour_blocking_fallback_counterexample :
+    ∃ s, Compio.Produced.run Compio.Produced.init [.poll, .completeFallback, .poll] = some s ∧
+      s.finished ∧ 0 ∈ s.taken ∧ 0 ∈ s.closed := by
+  refine ⟨_, rfl, ?_⟩
+  unfold Compio.Produced.St.finished
+  decide
+
 end Compio.Cex.C06
